@@ -268,3 +268,63 @@ func markAbsentOn(cond ssa.Value, truth bool, recv ssa.Value, m sealMark) bool {
 	// equal to a different constant implies the mark is absent
 	return (bo.Op == token.EQL && truth) || (bo.Op == token.NEQ && !truth)
 }
+
+// ruleFreshRoot: the automaton a (re-)initialised builder starts from is storage of its own. The
+// previous root may have been handed out by Finish; a new root whose label or link slices are the
+// old ones cut to length 0 (to "keep the memory") is appended to in place, and the Dawg that was
+// handed out changes under its owner. Every value Initialise stores into a pointer field of the
+// builder that holds a Dawg must be a local allocation none of whose fields refers to memory that
+// existed before the call.
+func ruleFreshRoot(c *Ctx, r *RuleResult, initName, typ string) {
+	fn := c.Fn(initName)
+	if !checkUnknown(c, r, fn) {
+		return
+	}
+	E := c.Eff()
+	f := E.fas[fn]
+	recv := fn.Params[0]
+	n := 0
+	for _, b := range fn.Blocks {
+		for _, in := range b.Instrs {
+			st, ok := in.(*ssa.Store)
+			if !ok {
+				continue
+			}
+			fld, ok := fieldOfAddr(st.Addr, recv)
+			if !ok {
+				continue
+			}
+			pt, isPtr := st.Val.Type().Underlying().(*types.Pointer)
+			if !isPtr {
+				continue
+			}
+			nm, isNamed := pt.Elem().(*types.Named)
+			if !isNamed || nm.Obj().Name() != typ {
+				continue
+			}
+			n++
+			r.inst("%s: the %s stored into %s is a fresh allocation that refers to no earlier memory", initName, typ, fld)
+			bad := ""
+			for l := range f.P(st.Val) {
+				if l.o.root >= 0 {
+					bad = "the value itself is " + E.apString(fn, f.apOf(l))
+					break
+				}
+				for slot, ls := range l.o.content {
+					for l2 := range ls {
+						if l2.o.root >= 0 && l2.o.root < rFresh {
+							bad = "its field " + slot + " refers to " + E.apString(fn, f.apOf(l2))
+						}
+					}
+				}
+			}
+			r.oblig(bad == "")
+			if bad != "" {
+				r.find(initName+":new "+fld+" shares memory with the previous state", c.instrPos(st), "%s installs a %s that shares memory with the builder's previous state (%s): the previous automaton may have been handed out by Finish, and building the next one then edits it in place", initName, typ, bad)
+			}
+		}
+	}
+	if n == 0 {
+		r.undecided("%s stores no *%s into the builder", initName, typ)
+	}
+}
